@@ -7,24 +7,37 @@
            per channel, plus the user pseudo-feed), the request options, the high cached sequence,
            and the rows the real MultiChangesFeed sent: the merge model must produce the same rows.
    CSys  : a write history (document, sequence, winning revision, channels, deleted) and a list of
-           requests with the rows the real database returned: expected_changes, computed from the
-           history alone, must equal them. *)
-From SG Require Export Base.Prelude C20.SeqIdGen C20.SeqId C01.ChanCache C01.Merge C01.Visible.
+           requests with the rows the real database returned: expected_tok (= expected_changes when
+           the since token has no TriggeredBy and the server has no skipped sequence), computed from
+           the history alone, must equal them.
+   Component traces may contain, besides the operations of singleChannelCacheImpl, runs of the real
+   changesFeed goroutine (db/changes.go) over the cache under test with a chosen ChannelQueryLimit
+   (FD), reads of a real bypassChannelCache sharing the query handler (BG) and changesFeed over that
+   bypass cache (BF); their rows are compared with ChangesFeed.v. *)
+From SG Require Export Base.Prelude C20.SeqIdGen C20.SeqId C20.SeqIdCodec C01.ChanCache C01.Merge C01.Visible.
+From SG Require Export C01.VisibleTok C01.ChangesFeed.
 Open Scope N_scope.
 
 Definition E (s d r : N) (rm del : bool) : entry := mkE s d r rm del.
 
 (* operations with N arguments where the model uses nat (lengths) *)
-Definition W (e : entry) : op := OWrite e.
-Definition A (e : entry) (r : bool) : op := OAdd e r.
-Definition PP (ch : list entry) (a b : N) : op := OPrepend ch a b.
-Definition PA (aged : list N) : op := OPruneAge aged.
-Definition PU (ds : list N) : op := OPurge ds.
-Definition GCa (since limit : N) : op := OGetCached since (N.to_nat limit).
-Definition GC (since limit : N) (ao : bool) : op := OGetChanges since (N.to_nat limit) ao.
+Definition W (e : entry) : xop := XBase (OWrite e).
+Definition A (e : entry) (r : bool) : xop := XBase (OAdd e r).
+Definition PP (ch : list entry) (a b : N) : xop := XBase (OPrepend ch a b).
+Definition PA (aged : list N) : xop := XBase (OPruneAge aged).
+Definition PU (ds : list N) : xop := XBase (OPurge ds).
+Definition GCa (since limit : N) : xop := XBase (OGetCached since (N.to_nat limit)).
+Definition GC (since limit : N) (ao : bool) : xop := XBase (OGetChanges since (N.to_nat limit) ao).
+(* changesFeed over the cache / bypassChannelCache.GetChanges / changesFeed over the bypass cache *)
+Definition FD (t l s reqlimit : N) (ao : bool) (qlimit : N) : xop := XFeed t l s (N.to_nat reqlimit) ao (N.to_nat qlimit).
+Definition BG (since limit : N) (ao : bool) : xop := XBypassGet since (N.to_nat limit) ao.
+Definition BF (t l s reqlimit : N) (ao : bool) (qlimit : N) : xop := XBypassFeed t l s (N.to_nat reqlimit) ao (N.to_nat qlimit).
 
-Record cobs := mkO { o_vf : N; o_logs : list entry; o_out : out }.
-Definition O (vf : N) (l : list entry) (o : out) : cobs := mkO vf l o.
+Coercion XO : out >-> xout.
+Definition RFeed (rows : list row) : xout := XFeedRows rows.
+
+Record cobs := mkO { o_vf : N; o_logs : list entry; o_out : xout }.
+Definition O (vf : N) (l : list entry) (o : xout) : cobs := mkO vf l o.
 
 Definition entries_eqb := list_eqb entry_eqb.
 Definition out_eqb (a b : out) : bool :=
@@ -36,15 +49,6 @@ Definition out_eqb (a b : out) : bool :=
   | _, _ => false
   end.
 
-Fixpoint comp_ok (s : sys) (l : list (op * cobs)) : bool :=
-  match l with
-  | [] => true
-  | (o, ob) :: r =>
-      let '(s', out) := step s o in
-      (vfrom (s_c s') =? o_vf ob) && entries_eqb (logs (s_c s')) (o_logs ob) && out_eqb out (o_out ob)
-      && comp_ok s' r
-  end.
-
 (* rows as observed: token (TriggeredBy, LowSeq, Seq), document, revision, deleted, Removed sorted *)
 Definition R (t l s id rev : N) (del : bool) (rm : list N) : row := mkR (mk t l s) id rev del rm false false.
 Definition H (d s r : N) (chs : list N) (del : bool) : hop := HW d s r chs del.
@@ -54,18 +58,37 @@ Definition row_eqb (a b : row) : bool :=
   && Bool.eqb (r_del a) (r_del b) && list_eqb N.eqb (r_rm a) (r_rm b).
 Definition rows_eqb := list_eqb row_eqb.
 
+Definition xout_eqb (a b : xout) : bool :=
+  match a, b with
+  | XO x, XO y => out_eqb x y
+  | XFeedRows x, XFeedRows y => rows_eqb x y
+  | _, _ => false
+  end.
+
+Fixpoint comp_ok (s : sys) (l : list (xop * cobs)) : bool :=
+  match l with
+  | [] => true
+  | (o, ob) :: r =>
+      let '(s', out) := xstep s o in
+      (vfrom (s_c s') =? o_vf ob) && entries_eqb (logs (s_c s')) (o_logs ob) && xout_eqb out (o_out ob)
+      && comp_ok s' r
+  end.
+
 Record req := mkQ { q_user : option (list N); q_udoc : N; q_useq : N; q_chans : list N;
-                    q_since : seqid; q_limit : N; q_ao : bool; q_hi : N }.
+                    q_since : seqid; q_limit : N; q_ao : bool; q_hi : N; q_low : N }.
 Definition Q (u : option (list N)) (udoc useq : N) (chs : list N) (t l s : N) (limit : N) (ao : bool) (hi : N) : req :=
-  mkQ u udoc useq chs (mk t l s) limit ao hi.
+  mkQ u udoc useq chs (mk t l s) limit ao hi 0.
+(* a request on a server whose low sequence (oldest skipped sequence - 1) is [low] *)
+Definition QL (u : option (list N)) (udoc useq : N) (chs : list N) (t l s : N) (limit : N) (ao : bool) (hi low : N) : req :=
+  mkQ u udoc useq chs (mk t l s) limit ao hi low.
 
 Definition sys_ok (hist : list hop) (qr : req * list row) : bool :=
   let q := fst qr in
-  rows_eqb (expected_changes hist (q_user q) (q_udoc q) (q_useq q) (q_chans q) (q_since q)
-              (N.to_nat (q_limit q)) (q_ao q) (q_hi q)) (snd qr).
+  rows_eqb (expected_tok hist (q_user q) (q_udoc q) (q_useq q) (q_chans q) (q_since q)
+              (N.to_nat (q_limit q)) (q_ao q) (q_hi q) (q_low q)) (snd qr).
 
 Inductive case :=
-| CComp (vf0 maxl minl : N) (steps : list (op * cobs))
+| CComp (vf0 maxl minl : N) (steps : list (xop * cobs))
 | CMerge (feeds : list (list row)) (ao : bool) (hi limit low : N) (out : list row)
 | CSys (hist : list hop) (reqs : list (req * list row)).
 
